@@ -141,6 +141,9 @@ func (s *scriptedEvaluator) GenerationEvaluate(_ context.Context, pop *genetics.
 		return errScripted
 	case "failctx":
 		return errScriptedCtx
+	case "fsolved":
+		epoch.Solved = true // the champion was set by FillPopulationStatistics above
+		return errScripted
 	case "cancel":
 		s.cancel()
 	case "csolved":
